@@ -169,6 +169,10 @@ def replay_symmetry(arg):
             basis.append(cg.shell(rng, rng.choice([2, 3]), K=1, M=1, lo=0.1, hi=0.3))
         else:
             basis.append(cg.shell(rng, rng.randint(0, 2), K=rng.randint(1, 2), M=rng.randint(1, 2), lo=0.2, hi=6.0))
+    # the three dispatch paths (all-Cartesian, all-spherical, mixed) fill the copied blocks in separate code
+    variant = ["as drawn", "cartesian", "spherical"][n % 3]
+    if variant != "as drawn":
+        basis = [dict(s, type=variant) for s in basis]
     shells = gb.make_basis(basis)
     m = gb.mod
     pts = np.array([[0.3, -0.2, 0.1], [1.0, 0.4, -0.8]])
@@ -334,6 +338,8 @@ def run(pid, tier, seed, only_case=None):
             seen.add(key)
             if quick and pid == "C13" and st.get("depth", 0) >= 2 and (len(seen) + seed) % 3:
                 continue                      # quick: every depth-1 state, a third of the deeper ones
+            if not quick and pid == "C13" and st.get("depth", 0) >= 3 and (len(seen) + seed) % 8:
+                continue                      # thorough: TLC checks every depth-3 state, an eighth of them is replayed
             eri = len(cases) % (12 if quick else 2) == 0 and len(init0) <= 2
             cases.append((pid, seed, init0, st, eri))
     out = common.pmap(replay_state, cases)
@@ -347,7 +353,7 @@ def run(pid, tier, seed, only_case=None):
         ctx.note_dev("relative deviation from the output law", r["dev"])
         for v in r["violations"]:
             ctx.violation({"function": v.split(" ")[0].split(":")[0]}, v, {"module": "meta", "case": cc})
-    extra = [(seed, n) for n in range(12 if quick else 96)]
+    extra = [(seed, n) for n in range(18 if quick else 96)]
     fn, kind = (replay_symmetry, "symmetry") if pid == "C11" else (replay_linear, "linear")
     for a, r in zip(extra, common.pmap(fn, extra)):
         cc = {"kind": kind, "seed": a[0], "n": a[1]}
